@@ -74,6 +74,7 @@ def generate(seed, tier="quick"):
             else:
                 op["kw"]["n_batches"] = None
                 all_explicit = False
+        sampling.add_arg_types(rnd, op, p=0.15)
         ops.append(op)
     size_a = rnd.randint(1, 6)
     cfg["pool"] = {"kind": "sim", "size": size_a}
